@@ -2,7 +2,7 @@
     never written before their recorded line and exactly on it when there is room (C04);
     a lossless token sequence is written back as the source unless two glued pieces trip
     the space check (C03). *)
-From DL Require Import Lib.Bytes Model.CommentText Model.TokenGen.
+From DL Require Import Lib.Bytes Model.CommentText Model.TokenGen Proof.CommentTextFacts.
 Require Import Lia ZArith ZifyBool ZifyN ZifyNat.
 Open Scope N_scope.
 Local Notation length := List.length.
@@ -472,14 +472,21 @@ Proof.
   eexists. rewrite <- !app_assoc. cbn [app]. reflexivity.
 Qed.
 
-(** but the classification is not the reference lexer's: "--[a[" is a line comment for Lua and a
-    long comment for the generator, which then glues the next token to it *)
-Theorem misclassified_comment_swallows_token :
+(** the same for every comment that the REFERENCE lexer reads as a short comment: the generator's
+    classification agrees with it (since /repo commit fc507f0; before, "--[a[" glued the next token) *)
+Theorem reference_line_comment_then_token : forall st t x r l sc, long_open t = None ->
+  exists rest, g_out (write_token (write_trivia st KComment (45 :: 45 :: t)) (x :: r) l sc)
+               = g_out st ++ (45 :: 45 :: t) ++ 10 :: rest.
+Proof.
+  intros st t x r l sc H. apply line_comment_then_token.
+  unfold is_single_line_comment. rewrite CommentTextFacts.classifier_agrees, H. reflexivity.
+Qed.
+
+Example formerly_misclassified_comment :
   let c := of_string "--[a[" in
-  lex_comment (c ++ [59]) = Some (length (c ++ [59])) /\
   g_out (run g_init [RToken [49] (Some 1%nat) true; RTrivia KComment c; RToken [59] (Some 1%nat) true])
-    = [49] ++ c ++ [59].
-Proof. vm_compute. split; reflexivity. Qed.
+    = [49] ++ c ++ [10; 59].
+Proof. vm_compute. reflexivity. Qed.
 
 (** a raw push ([push_str("...")], the variadic type pack) is not preceded by the break either *)
 Theorem raw_push_swallowed :
